@@ -16,5 +16,10 @@ for d in sorted(glob.glob("/verif/seeded/C??%s-?" % suffix)):
     if len(key) > 80:
         key = key[:80]
     summ = " ".join(m["summary"].split())[:170].replace("|", "/")
-    rows.append("| %s | %s | `%s` | %s |" % (name, summ, key if v.get("caught_by_quick_check") else "MISSED", NEED.get(name, "-")))
+    shown = "`%s`" % key if v.get("caught_by_quick_check") else "MISSED"
+    if not v.get("caught_by_quick_check") and v.get("caught_by_other_check"):
+        shown = "not by its own check; by " + v["caught_by_other_check"].split(":")[0]
+    if os.path.exists(d + "/OBSOLETE"):
+        shown = "obsolete (see OBSOLETE)"
+    rows.append("| %s | %s | %s | %s |" % (name, summ, shown, NEED.get(name, "-")))
 print("\n".join(rows))
